@@ -77,7 +77,7 @@ Fixpoint tree_matches_upto (s : st) (n : nat) : bool :=
 Definition tree_matches (s : st) : bool := tree_matches_upto s (N.to_nat (asize s)).
 
 (* ============ A (FIXED by ccd70f3): a precommitted record without its values is not reloaded ============ *)
-Definition cfA := mkCfg 4 4 false 0 false false true.
+Definition cfA := mkCfg 4 4 false 0 RCut false true.
 Definition sA0 := init Hh cfA 1.
 (* a committer appends its values and precommits; the tx-log buffer reaches the OS (buffer full /
    write-back), the value-log buffer does not; crash.  Before the fix recovery reloaded the record
@@ -103,7 +103,7 @@ Qed.
 
 (* ============ B (FIXED by b260503; history: the code before it, c_ahtsync = false): the hash tree keeps a
    leaf of a LOST transaction and is taken as up to date ============ *)
-Definition cfB := mkCfg 2 4 false 0 false false false.
+Definition cfB := mkCfg 2 4 false 0 RMem false false.
 Definition sB0 := init Hh cfB 1.
 (* two transactions are precommitted: the tree reaches its own sync threshold (2) and fsyncs its
    logs; the tx log is still in its write buffer; crash: both transactions are lost, the tree is not *)
@@ -151,7 +151,7 @@ Qed.
 
 (* the SAME trace and crash images on the code since b260503 (the tree is fsynced by sync() before the
    commit entries are written): the recovered tree matches *)
-Definition cfB' := mkCfg 2 4 false 0 false false true.
+Definition cfB' := mkCfg 2 4 false 0 RMem false true.
 Definition sB1' := get (run Hh (init Hh cfB' 1) opsB1) (init Hh cfB' 1).
 Definition sB2' := get (recover Hh cfB' (img_dur sB1')) (init Hh cfB' 1).
 Definition sB3' := get (run Hh sB2' opsB2) (init Hh cfB' 1).
@@ -163,7 +163,7 @@ Example scenario_B_repaired :
 Proof. vm_compute. repeat split; congruence. Qed.
 
 (* ============ C: PreallocFiles — a partially written commit-log entry stops recovery ============ *)
-Definition cfC := mkCfg 4 4 true 440 false false true.
+Definition cfC := mkCfg 4 4 true 440 RCut false true.
 Definition sC0 := init Hh cfC 1.
 (* one transaction goes through sync() up to the commit-log append; 20 of the 44 bytes of its entry
    reach the disk (write buffer flushed in the middle of the entry, or torn write); crash.
@@ -186,7 +186,7 @@ Proof.
 Qed.
 
 (* the same image without PreallocFiles recovers (the partial entry is trimmed) *)
-Definition cfC' := mkCfg 4 4 false 0 false false true.
+Definition cfC' := mkCfg 4 4 false 0 RCut false true.
 Definition sC1' := get (run Hh (init Hh cfC' 1) opsC) (init Hh cfC' 1).
 Definition imC' := img_txcm sC1'.
 Example no_prealloc_recovers : is_ok (recover Hh cfC' imC') = true.
@@ -195,7 +195,7 @@ Proof. vm_compute. reflexivity. Qed.
 (* the same image with the proposed repair fixes/C03-prealloc-clog-trim.diff (c_preallocfix = true): the
    slot is a zero-padded prefix of the entry of the transaction found in the tx log right after the
    last valid entry; it is ignored, the transaction is reloaded as precommitted *)
-Definition cfCfix := mkCfg 4 4 true 440 false true true.
+Definition cfCfix := mkCfg 4 4 true 440 RCut true true.
 Definition sC1f := get (run Hh (init Hh cfCfix 1) opsC) (init Hh cfCfix 1).
 Definition sC2f := get (recover Hh cfCfix (img_txcm sC1f)) (init Hh cfCfix 1).
 Example scenario_C_repaired :
@@ -206,10 +206,11 @@ Proof. vm_compute. repeat split; congruence. Qed.
 (* ============ D (regression with 09014a8): the tree's logs are truncated while its commit log still
    lists the entries ============ *)
 (* Since 09014a8 a rewind below the flushed size truncates the file (and removes chunk files).
-   ahtree.ResetSize lowers the sizes IN MEMORY; the next Append rewinds pLog/dLog = truncation, the
-   tree's commit log keeps its entries until the tree's next sync.  Crash in between:
+   ahtree.ResetSize rewinds the tree's commit log (fix 6a85281) WITHOUT fsyncing it; the next Append
+   rewinds pLog/dLog = truncation (chunk files removed: durable at once).  Nothing orders the two
+   truncations on their way to the disk.  Crash with the second on disk and the first not:
    ahtree.OpenWith finds a digest log shorter than the commit log says and refuses to open. *)
-Definition cfD := mkCfg 2 4 false 0 false false true.
+Definition cfD := mkCfg 2 4 false 0 RCut false true.
 Definition sD0 := init Hh cfD 1.
 (* transaction 1 is committed and acknowledged; 2 and 3 are precommitted: the tree reaches its sync
    threshold and fsyncs 3 leaves; the tx log is still buffered; crash: 2 and 3 are lost *)
@@ -218,9 +219,9 @@ Definition opsD1 := [OVal 0 [1]; OPre 0 [7]; OSyncStart; OSyncV 0; OSyncTx; OSyn
 Definition sD1 := get (run Hh sD0 opsD1) sD0.
 Definition imD1 := img_dur sD1.
 Definition sD2 := get (recover Hh cfD imD1) sD0.
-(* recovery resets the tree to 1 leaf in memory; a new transaction 2' is precommitted: its leaf is
-   appended at offset 32 = the data log is truncated there; second crash, the truncation reached the
-   disk *)
+(* recovery resets the tree to 1 leaf (commit log rewound, not fsynced); a new transaction 2' is
+   precommitted: its leaf is appended at offset 32 = the data log is truncated there; second crash,
+   the truncation of the data log reached the disk, that of the commit log did not *)
 Definition opsD2 := [OVal 0 [4]; OPre 0 [5]].
 Definition sD3 := get (run Hh sD2 opsD2) sD0.
 Definition imD2 := img_ahd sD3.
@@ -237,7 +238,7 @@ Qed.
 
 Theorem aht_truncation_refuted :
   exists (c : cfg) (nv : nat) (s : st) (im : images),
-    c_prealloc c = false /\ 0 < c_thld c /\ c_ahtsync c = true /\ c_ahtreset c = false /\
+    c_prealloc c = false /\ 0 < c_thld c /\ c_ahtsync c = true /\ c_ahtreset c = RCut /\
     reach Hh c nv s /\ crash s im /\ acked s = 1 /\
     len (i_ahd im) < 32 * (len (i_ahc im) / 12) /\
     recover Hh c im = Err ECorruptedData.    (* an acknowledged commit, and the store does not open *)
@@ -247,9 +248,9 @@ Proof.
   vm_compute. repeat split; congruence.
 Qed.
 
-(* the SAME trace with the proposed repair fixes/C03-aht-durable-reset.diff (ResetSize rewinds the
-   tree's commit log and fsyncs it): the store opens, the acknowledged transaction is there *)
-Definition cfD' := mkCfg 2 4 false 0 true false true.
+(* the SAME trace with the proposed repair fixes/C03-aht-durable-reset.diff (ResetSize fsyncs the
+   tree's commit log after rewinding it): the store opens, the acknowledged transaction is there *)
+Definition cfD' := mkCfg 2 4 false 0 RSync false true.
 Definition sD1' := get (run Hh (init Hh cfD' 1) opsD1) (init Hh cfD' 1).
 Definition sD2' := get (recover Hh cfD' (img_dur sD1')) (init Hh cfD' 1).
 Definition sD3' := get (run Hh sD2' opsD2) (init Hh cfD' 1).
